@@ -819,6 +819,32 @@ func (x *Exec) evalCall(e *Expr, env *Env) Val {
 		}
 		op := map[string]string{"fpeq": "fp.eq", "fplt": "fp.lt", "fpgt": "fp.gt", "fple": "fp.leq", "fpge": "fp.geq"}[e.Name]
 		return specBool(sx(op, fpTerm(as[0], w), fpTerm(as[1], w)))
+	case "called":
+		// called(f): the function under verification called f (directly) on this path
+		if len(e.Args) != 1 {
+			bail("called(f) expects a function name")
+		}
+		if env.st.ghost["called:"+e.Args[0].String()] == "true" {
+			return specBool("true")
+		}
+		return specBool("false")
+	case "callret":
+		// callret(f, i): result i of the latest direct call of f on this path (errors, integers, booleans)
+		if len(e.Args) != 2 {
+			bail("callret(f, i) expects a function name and a result index")
+		}
+		nm, idx := e.Args[0].String(), e.Args[1].String()
+		t, ok := env.st.ghost["callret:"+nm+":"+idx]
+		if !ok {
+			bail("unknown identifier: callret(%s, %s): no such call on this path", nm, idx)
+		}
+		switch env.st.ghost["callretk:"+nm+":"+idx] {
+		case fmt.Sprint(int(KErr)):
+			return Val{K: KErr, T: t, Typ: types.Universe.Lookup("error").Type()}
+		case fmt.Sprint(int(KBool)):
+			return specBool(t)
+		}
+		return specInt(t)
 	case "egerr":
 		// egerr(g): the first error returned by a worker of errgroup g so far (nil if none)
 		h := x.heapFor(env, "G_egerr", "(Array Int Err)")
